@@ -126,6 +126,7 @@ ob("O-C08-ops", ["C08"], C, "c08_cmp_dispatch", "ops::Cmp::run is the comparison
 ob("O-C15-verify-last", ["C15"], C, "c15_verify_last", "Parser::verify_last accepts exactly when what remains of a delimited block is its closing delimiter alone (or nothing at the top level): leftover tokens before the delimiter are an error, never silently dropped", [CORE + "load/parse.rs::Parser::verify_last"], label="bounded", bound="remaining token lists of length 0..=2 over three token texts x three expected delimiters, enumerated concretely")
 for nm, what in (("empty", "the empty comment, plain white space, no comment"), ("bs", "comment bodies starting with a backslash"), ("sp", "comment bodies starting with a space"), ("nl", "comment bodies starting with a newline"), ("cr", "comment bodies starting with a carriage return"), ("a", "comment bodies starting with a letter")):
     ob(f"O-C15-space-{nm}", ["C15"], C, f"c15_space_{nm}", f"Lexer::space skips exactly white space and comments, a comment ending at the first line ending that is not immediately preceded by an odd number of backslashes (CR before LF not counting): {what}", [CORE + "load/lex.rs::Lexer::space"], label="bounded", bound="comment bodies of length <= 3 over { backslash, space, LF, CR, letter }, followed by a fixed two-line tail; enumerated concretely (string literals)", timeout=1200, tier="quick" if nm in ("bs", "empty") else "thorough")
+ob("O-C05-token", ["C05", "C15"], C, "c05_token_points", "Lexer::token on texts with a non-ASCII character right after each kind of token start (`.`, `..`, identifier, number, `$`, `@`, `::`, operator, comment): never panics (no slice off a character boundary), consumes exactly the ASCII token prefix and records the expected errors", [CORE + "load/lex.rs::Lexer::token", CORE + "load/lex.rs::Lexer::ident1", CORE + "load/lex.rs::Lexer::mod_then_ident"], label="point", kind="point")
 ob("O-C16-vars", ["C16", "C01"], C, "c16_var_numbering", "Compiler::var with no live local binder: the returned index selects, in the run-time list Vars::new(globals ++ imported values), the last data import of that name owned by the current module, else the last command-line variable of that name; an undefined name is reported, never mis-indexed", [CORE + "compile.rs::Compiler::var"], label="bounded", bound="2 data imports x 2 owning modules, 2 global variables, names from a 2-letter alphabet, current module 0 or 1 (all symbolic)")
 ob("O-C01-binds", ["C01"], C, "c01_binds", "binds(sig, args) pairs the i-th signature kind (variable / filter) with the i-th argument id, in order", [CORE + "compile.rs::binds"], label="bounded", bound="<= 3 arguments, kinds and ids symbolic")
 ob("O-C03-peek", ["C03"], C, "c03_next_if_one", "next_if_one returns an element only under size_hint upper bound Some(1); pulls nothing when it declines because of the hint; never pulls an element it does not return (ghost pull counter on the upstream iterator)", [CORE + "box_iter.rs::next_if_one"], label="bounded", bound="upstream streams of length <= 3, every honest size hint")
